@@ -35,6 +35,25 @@ CLAIMED = {
  "C19": dict(cat="proof", tech="Lean 4 proof + regenerated tables + exhaustive correspondence",
    text="attr_value (all 16-bit values, any name table consistent with the header), text_clause_value, attr_include, include_pass; consistency of avo's regenerated table with the installed textflag.h by decide; exhaustive correspondence over all 65536 values x both directive kinds plus an acceptor evaluating the implementation's own text.",
    note=TB + "Assumed: the assembler evaluates A|B|n as bitwise OR; textflag.h parser."),
+
+ "C11": dict(cat="proof", tech="Lean 4 proofs about the printer model (structured lines + text) + byte-exact correspondence + assembler/objdump measurement",
+   text="flush_complete / labels_bound / one_text_per_fn / parse_print for all node lists and files: block buffering never drops, duplicates or reorders an instruction, labels stay bound to the same instruction, one TEXT block per function; print_faithful: parsing the printed bytes gives back the file under explicit decidable token hypotheses; column width does not change tokens. The model's bytes equal printer.NewGoAsm's on every generated file; compiled files are assembled with go tool asm and instruction count/order, frame/args/flags and every branch target are read back from the object and judged in Lean.",
+   note=TB + "Proof-partial: acceptance by the Go assembler and the machine-code branch targets are measured on sampled files, not proved. Finding F10: CALL with a label operand (label pruned; not assemblable)."),
+ "C12": dict(cat="proof", tech="Lean 4 proofs about the stub printer model + exact correspondence modulo go/format + go/types, gofmt, go build, go vet measurement",
+   text="parse_stubs / declared_once / stubs_match_asm / stub_constraints_eq: each function is declared exactly once in file order preceded by doc lines then pragmas, package clause as configured, constraint block identical to the assembly printer's. printer.NewStubs output equals go/format of the model's text on every case; every stub is parsed and type-checked (types.Identical signatures), gofmt idempotence checked, stub+asm packages built and vetted (asmdecl) on samples.",
+   note=TB + "Proof-partial: go/types.WriteSignature, go/format and the compiler are measured. Finding F15: doc comments with an indented line followed by a list item are not gofmt-stable."),
+ "C13": dict(cat="proof", tech="Lean 4 proofs about the data-section model + regenerated constant table + exact correspondence + assembler measurement",
+   text="data_disjoint / data_image / overlap_rejected / int_text_roundtrip (all 8 integer types, all values) / string_text_roundtrip / data_lines for all placement sequences; constant format verbs regenerated from operand/zconst.go. Real build.Context/ir.Global placements compared exactly (data list, size, image, DATA/GLOBL lines); printed files assembled with go tool asm and the symbol bytes compared with the model image; floats measured against the assembler's own parse (float32 stratified/exhaustive tiers).",
+   note=TB + "Proof-partial for floats (measured). Finding F14: out-of-order DATA offsets are accepted by avo and rejected by the assembler."),
+ "C16": dict(cat="proof", tech="Lean 4 induction over allocation sequences + exact correspondence + acceptor",
+   text="locals_ok: for all lists of sizes the regions handed out by AllocLocal are pairwise disjoint, inside [0, frame), frame = sum, and disjoint from the BP save slot; the local forced by BP clobbering comes after all user regions; printed $frame equals LocalSize. Real AllocLocal/EnsureBasePointerCalleeSaved/printer compared on random interleavings; acceptor states the property on the implementation's regions.",
+   note=TB + "Negative sizes are outside the property's quantifier."),
+ "C18": dict(cat="proof", tech="Lean 4 proofs about the builder state machine + exact correspondence + acceptor; panic-freedom measured under recover",
+   text="errs_monotone / bad_never_masked / valid_no_error / main_stops / pass_error_stops / component_chain / C18 (Spec for all histories): each builder-time fault appends exactly one error, any fault makes the result an error with one message per fault, Main returns non-zero and runs no pass, Concat stops at the first failing pass, error components stay errors. Histories of 1-80 real builder calls (Context methods and package-level functions) compared exactly; every call under recover (panic = violation).",
+   note=TB + "Absence of panics is measured, not proved. Operand-form matching, signature parsing and MOV deducibility are classified by the harness."),
+ "C20": dict(cat="proof", tech="Lean 4 arithmetic proofs + decide over regenerated register table x measured hardware table + exhaustive correspondence",
+   text="newid/idKind/idIndex round trips for all inputs; over the regenerated register table and the measured assembler/CPU table (decide +kernel, complete over 172 views): hardware number, width, mask bytes = bytes a write changes, identity iff same kind and hardware register, lookup returns exactly the existing views (none only for 8H on index >= 4), virtual view conversion keeps id and yields the requested spec, Collection ids are distinct for the first 2^16 allocations. All conversions/lookups/classifications of the real API compared exhaustively.",
+   note=TB + "Oracle.RegHW is measured on this host on every run (go tool asm + three decoders + execution). Finding F13: the 65537th virtual register of a kind collides with the first (uint16 index)."),
 }
 
 def main():
